@@ -386,8 +386,9 @@ class Env:
     """A fresh server with its standard mailboxes, a session under test
     (`conn`) and an independent probe session (`probe`)."""
 
-    def __init__(self, kind: str) -> None:
+    def __init__(self, kind: str, colon: str | None = None) -> None:
         self.kind = kind
+        self.colon = colon      # maildir --colon: the info delimiter of message file names
         self.names = NAMES[kind]
         self.real = self.names[:3]
         self.contents = Contents()
@@ -405,6 +406,8 @@ class Env:
             self.password = b'testpass'
         else:
             self.env = await MaildirEnv().start()
+            if self.colon is not None:
+                self.env.config._colon = self.colon     # what --colon sets (MaildirEnv has no knob)
             self.user = b'u1'
             self.password = b'pass'
             c = await self.env.login()
@@ -431,6 +434,16 @@ class Env:
                                     + lit + b'\r\n')
                     assert b'p OK' in r, r
                 await c.send(b'c LOGOUT\r\n')
+            if rng.random() < 0.7:
+                # messages dropped in by an external delivery agent: files in new/ or cur/ whose
+                # name has no ':2,<flags>' suffix (pymap's own APPEND/COPY always write one)
+                for k in range(rng.choice([1, 2, 3])):
+                    box = 'INBOX' if k == 0 else rng.choice(self.real)
+                    path = base if box == 'INBOX' else os.path.join(base, '.' + box)
+                    fn = os.path.join(path, rng.choice(['new', 'cur']), f'{1100000000 + k}.X{k}.ext')
+                    with open(fn, 'wb') as f:
+                        f.write(content(80 + k))
+                    os.utime(fn, (915148800 + 86400 * k,) * 2)
         self.conn = await self.env.login(self.user, self.password)
         self.probe = await self.env.login(self.user, self.password)
         return self
